@@ -173,6 +173,7 @@ let monitors : (string * (config -> n list -> n list option -> bool)) list = [
   ("C18udp", ok_C18_udp);
   ("C15udp", ok_C15_udp);
   ("C15udp_strict", ok_C15_udp_strict);
+  ("C17udp", ok_C17_udp);
 ]
 
 (* monitors that read the implementation's compiled signature table (env) *)
@@ -197,6 +198,7 @@ let monitors_st : (string * (config -> ref_state -> n list -> n list option -> b
   ("C18tcp", ok_C18_tcp);
   ("C15tcp", ok_C15_tcp);
   ("C15tcp_strict", ok_C15_tcp_strict);
+  ("C17tcp", ok_C17_tcp);
 ]
 
 let () =
